@@ -18,6 +18,9 @@
 //!    multiple of 8 where the access still ends inside the next 8-byte
 //!    boundary.
 
+#[path = "shadow.rs"]
+pub mod shadow;
+
 use roto::verif_hooks::c20::Perturb;
 use roto::verif_hooks::core::lower_to_mir;
 use roto::{FileTree, Runtime};
@@ -181,16 +184,28 @@ pub const MATCH_SHAPES: u64 = 7 * 2 * 2; // n in 3..=9 × payload × wildcard
 pub const MATCH_REPEATS: u64 = 4;
 pub const CALLS: u64 = 12;
 pub const RECORDS: u64 = 48;
+/// random block-structured programs: the deliberate shadowing stream, then mostly-unique names
+pub const SHADOW_STREAM: u64 = 60;
+pub const BLOCKS_STREAM: u64 = 30;
 
 pub fn total(thorough: bool) -> u64 {
     let k = if thorough { 8 } else { 1 };
-    MATCH_SHAPES * MATCH_REPEATS * k + CALLS * k + RECORDS * k
+    shadow::REPS + MATCH_SHAPES * MATCH_REPEATS * k + CALLS * k + RECORDS * k + (SHADOW_STREAM + BLOCKS_STREAM) * k
 }
 
 pub fn case_for(seed: u64, idx: u64, thorough: bool) -> FlowCase {
     let k = if thorough { 8 } else { 1 };
+    // class representatives first, independent of the seed
+    if idx < shadow::REPS {
+        return shadow::rep(idx);
+    }
+    let idx = idx - shadow::REPS;
     let mut p = Prng::for_case(seed, 3_000_000 + idx);
     let nm = MATCH_SHAPES * MATCH_REPEATS * k;
+    let before_streams = nm + CALLS * k + RECORDS * k;
+    if idx >= before_streams {
+        return shadow::random(&mut p, idx - before_streams < SHADOW_STREAM * k);
+    }
     if idx < nm {
         let s = idx % MATCH_SHAPES;
         let n = 3 + (s % 7) as usize;
